@@ -352,7 +352,7 @@ func (SimpleColumn) readPred(scanner *bufio.Scanner, p ast.PredicateSym, numFact
 				continue
 			}
 			text := scanner.Text()
-			if text[0] == '/' {
+			if strings.HasPrefix(text, "/") {
 				var err error
 				text, err = percentUnescape(text)
 				if err != nil {
